@@ -256,6 +256,24 @@ theorem getString_range {r : Str} (hn : NoNul r) {v : Str} {e : Nat} {r' : Str}
       (ut.mono (fun c hc' => by simpa using hc') (fun _ h => h))
   · simp [h2] at h
 
+/-- every value the character-literal scanner produces lies in `ValUnits '\''` -/
+theorem getCharToken_range {r : Str} (hn : NoNul r) {v udf : Str} {e : Nat} {r' : Str}
+    (h : getCharToken 0 ('\'' :: r) = .ok (some (.chr 0 v udf), e, r')) : ValUnits '\'' v := by
+  obtain ⟨r3, e3, s3⟩ := skipTo_ok ['\'', '\n'] r
+  simp only [getCharToken, hd_cons, adv_cons_one, e3, bind, Except.bind, pure, Except.pure] at h
+  by_cases h3 : hd r3 = '\''
+  · obtain ⟨t3, rfl⟩ := ne_nil_of_hd h3 (by decide)
+    obtain ⟨u, r5, eu, _⟩ := getUdf_ok t3
+    simp [eu] at h
+    obtain ⟨t, et, ut⟩ := skipUntil_crossed _ r hn e3 (by simp)
+    have hc : consumed r ('\'' :: t3) = t := by rw [et]; exact consumed_append _ _
+    rw [hc] at h
+    rw [← h.1.1]
+    have ht : NoNul t := fun c hc' => hn c (by rw [et]; simp [hc'])
+    exact unescape_valUnits (by decide) (by decide) (by decide) ht
+      (ut.mono (fun c hc' => by simpa using hc') (fun _ h => h))
+  · simp [h3] at h
+
 /-- the double quote, for use where a bare quote character would unbalance a line -/
 abbrev DQ : Char := '"'
 
